@@ -242,6 +242,11 @@ def gen_C17(w, tier):
     for _ in range(150 if not big else 3000):
         w_ = r.choice([32, 32, 128, 256, 384, 1])
         tuples.append((rb(), rb(), rb(w_), rb(w_), rb(w_), rb()))
+    for n_ in (65535, 65536, 65537, 131072 + 5):     # around and above 64 KiB (chunked hashing, length fields)
+        big_ = bytes((i * 7 + n_) % 251 for i in range(n_))
+        tuples.append((b"a", b"b", b"X" * 32, b"Y" * 32, b"K" * 32, big_))
+        tuples.append((big_, big_[:-1], b"X" * 32, b"Y" * 32, b"K" * 32, b"pw"))
+        tuples.append((b"a", big_[:-1] + b"\x00", b"X" * 32, b"Y" * 32, b"K" * 32, b"pw"))
     for _ in range(30 if not big else 300):          # prefixes / suffixes of one another
         a = rb(20)
         tuples.append((a[:5], a[5:], a[:10], a[10:], a, a[:3]))
